@@ -104,7 +104,7 @@ KNOWN = {'protocols/basic.py': {'IntNStringReceiver': ['dataReceived', 'lengthLi
 def _views(ctx):
     v = ctx.__dict__.get("_views_d")
     if v is None:
-        v = ctx.__dict__["_views_d"] = Views(ctx, KNOWN)
+        v = ctx.__dict__["_views_d"] = Views(ctx, KNOWN, extended=True)
     return v
 
 
@@ -1242,6 +1242,11 @@ def g_before(g, x, others):
 
 
 def check(ctx):
+    from sa.props._lib_d import Guarded
+    _check(Guarded(ctx, RULE_KINDS))
+
+
+def _check(ctx):
     for name, fn in (("LineOnlyReceiver", _line_only), ("LineReceiver", _line_receiver), ("IntNStringReceiver", _intn), ("NetstringReceiver", _netstring)):
         with ctx.section(name):
             fn(ctx)
